@@ -10,13 +10,9 @@ def allGuards : Guards := { checkErr := true, checkCompiled := true, storeErr :=
     always propagates, compile leaves the builder-owned handler maps alone -/
 def facts : Facts :=
   { nodeG := allGuards, edgeG := allGuards, branchG := allGuards,
-    branchGuarded := true, branchPropagates := true, compileMutates := false }
+    branchGuarded := true, branchPropagates := true, compileMutates := false, compileChecksTypes := true }
 
 /-- fields of `g` that `compile` may assign (only the flag) -/
 def compileAssigns : List String := ["compiled"]
 
-/-- the decision list of utils.go checkAssignable, in source order -/
-def checkAssignableShape : List String :=
-  ["nil->MustNot", "eq->Must", "argIface&&input.Implements(arg)->Must",
-   "inputIface{arg.Implements(input)->May;MustNot}", "MustNot"]
 end EinoV.Expected.C20
